@@ -20,6 +20,14 @@ type Options struct {
 	GroupLimit bool `json:"group_limit,omitempty"`
 }
 
+// GetFlags are the query parameters of a filtered GET /alerts.
+type GetFlags struct {
+	Active    bool   `json:"active"`
+	Silenced  bool   `json:"silenced"`
+	Inhibited bool   `json:"inhibited"`
+	Receiver  string `json:"receiver,omitempty"` // regular expression, anchored by the API
+}
+
 type PostAlert struct {
 	LS    int  `json:"ls"`              // index into Scenario.LabelSets
 	Start *int `json:"start,omitempty"` // startsAt = now + seconds (nil: missing)
@@ -50,6 +58,7 @@ type Step struct {
 	Behave  *Behave      `json:"behave,omitempty"`
 	Config  *Config      `json:"config,omitempty"`  // reload
 	Restart string       `json:"restart,omitempty"` // clean | stale | none
+	Flags   *GetFlags    `json:"flags,omitempty"`   // get-alerts: a second, filtered request
 }
 
 type Scenario struct {
@@ -137,6 +146,8 @@ type Sample struct {
 	PostStatus int          `json:"post_status,omitempty"`
 	SilenceID  string       `json:"silence_id,omitempty"`
 	Alerts     []APIAlert   `json:"alerts,omitempty"`      // get-alerts
+	Filtered   []APIAlert   `json:"filtered,omitempty"`    // get-alerts with Step.Flags, same instant
+	FilteredOK bool         `json:"filtered_ok,omitempty"` // the filtered request was made and answered 200
 	Groups     []APIGroup   `json:"groups,omitempty"`      // get-groups (API)
 	DispGroups []DispGroup  `json:"disp_groups,omitempty"` // get-groups (Dispatcher.Groups)
 	GroupGauge float64      `json:"group_gauge,omitempty"`
